@@ -78,3 +78,9 @@ Proof.
   split; [|repeat split; try reflexivity; intros []; reflexivity].
   intros k H. do 9 (destruct k as [|k]; [reflexivity|]). lia.
 Qed.
+
+(* spatial/nonrigid.py StationaryVelocityFieldTransform: its exponential works in the convention of the transformation's
+   CURRENT grid -- at construction and after grid_() / grid() -- so the u buffer is expv in that convention *)
+Lemma gen_svf_exp_flag_is_grid_flag :
+  (forall ac, gen_svf_init_exp_ac ac = ac) /\ (forall old new, gen_svf_regrid_exp_ac old new = new).
+Proof. split; [intros [] | intros [] []]; reflexivity. Qed.
